@@ -152,7 +152,7 @@ class C03(PropCheck):
                   "on every run; order independence and capability-list agreement are evaluated directly on the "
                   "implementation's outputs")
     level_note = ("trusted: Lean kernel; the hand-written model and its differential tie; HCL decoding, templating, path "
-                  "expiry, control groups, MFA and granting-policy lists are outside the model; the ACL stream runs in the root namespace, the Core.Capabilities stream also inside and across a child namespace")
+                  "expiry, control groups (except their merge across policies: Model/ControlGroup.lean), MFA and granting-policy lists are outside the model; the ACL stream runs in the root namespace, the Core.Capabilities stream also inside and across a child namespace")
     technique = "Lean 4 theorems (induction over rule lists, List.Perm, strict-total-order comparator) + differential correspondence"
     assumptions = ["ASCII parameter names (strings.ToLower modelled by ASCII lower-casing)",
                    "wrapping TTLs are whole seconds; no int64 overflow",
